@@ -158,6 +158,13 @@ def settle(pend, ex, fails, keep=3):
             bump(ex.stats, 'features', 'propagates_to_ancestor')
         if p.info['want'] and len(p.info['roots']) == 1 and len(p.info['E']) == 1 and len(nfinal.ancestors_in(p.info['roots'])) > 3:
             bump(ex.stats, 'features', 'single_state_entered_in_larger_configuration')
+        if len(p.info['E']) >= 2:
+            bump(ex.stats, 'features', 'several_states_entered_at_once')
+        exits = set(it[1] for it in p.sg.items if it[0] == 'exit')
+        if any(p.finals[i] and i in exits for i in p.info['E']):
+            bump(ex.stats, 'features', 'final_state_re_entered')
+        if one_region_changed(p.info['roots'], set(p.info['E'])):
+            bump(ex.stats, 'features', 'only_one_parallel_region_changed')
         if not a['wf']:
             bump(ex.stats, 'features', 'entered_set_not_wf')
         if not a['nodup']:
@@ -219,6 +226,21 @@ def settle(pend, ex, fails, keep=3):
             kept[sig] = kept.get(sig, 0) + 1
             if kept[sig] <= (1 if sig in (SIG_LEAK, SIG_ATTR, SIG_COMP) else keep):
                 fails.append(Failure('monitor', 'fires-spec', p.case, describe(p, a), signature=sig))
+
+
+def one_region_changed(roots, E):
+    """some state with >= 2 active children has all entered states below exactly one of them"""
+    def ids(t):
+        out = {t[0]}
+        for k in t[1]:
+            out |= ids(k)
+        return out
+
+    def walk(t):
+        if len(t[1]) >= 2 and E and sum(1 for k in t[1] if E & ids(k)) == 1 and t[0] not in E:
+            return True
+        return any(walk(k) for k in t[1])
+    return any(walk(t) for t in roots)
 
 
 def nontrivial_key(d, finals, info):
